@@ -116,6 +116,21 @@ func (m *imodel) checkAll(d *vdb, txn ReadTxn, qid, qtag []byte, id string) {
 
 	vnd.Assert(t.NumObjects(txn) == m.count(func(*vobj) bool { return true }), id+".numobjects")
 
+	// by-revision: every current object exactly once, ascending revisions
+	nrev := 0
+	last := uint64(0)
+	for o, rev := range t.LowerBound(txn, ByRevision[*vobj](0)) {
+		ri, ok := m.byID[o]
+		vnd.Assert(ok, id+".byrevision.unknown")
+		if ok {
+			vnd.Assert(m.recs[ri].present, id+".byrevision.stale")
+		}
+		vnd.Assert(rev > last, id+".byrevision.ascending")
+		last = rev
+		nrev++
+	}
+	vnd.Assert(nrev == m.count(func(*vobj) bool { return true }), id+".byrevision.count")
+
 	prim := idxSpec{PrimaryIndexPos, true, idKeys}
 	pi := txn.mustIndexReadTxn(t, PrimaryIndexPos)
 	it, _ := pi.all()
@@ -197,7 +212,18 @@ func VerifC04Indexes() {
 	}
 	for i := 0; i < N; i++ {
 		id := bytesOrNil("id", L)
-		if vnd.IntRange("op", 0, 2) < 2 {
+		op := vnd.IntRange("op", 0, 2+vnd.Param("REJECTED", 1))
+		if op == 3 {
+			// always-rejected compare-and-delete / compare-and-swap: nothing changes
+			if vnd.Bool("cad") {
+				d.table.CompareAndDelete(w, 1<<40, &vobj{id: id})
+			} else {
+				d.table.CompareAndSwap(w, 1<<40, &vobj{id: id, val: 77})
+			}
+			vnd.Cover("C04.rejected-op")
+			continue
+		}
+		if op < 2 {
 			nt := vnd.IntRange("ntags", 0, vnd.Param("NTAGSMAX", 2))
 			var tags [][]byte
 			for j := 0; j < nt; j++ {
